@@ -642,7 +642,56 @@ def wi_jobs(tier, seed):
     return [J('with_indices:' + t[0], 'jobs.rope:with_indices_job', dict(text=t[1], kind=t[2]), timeout=300) for t in WI_QUICK]
 
 
+
+# ------------------------------------------------------------------------------------------------ C15: SourceMap JSON
+def _S(x): return {'sym': x}
+def _N(x): return {'opt': x}
+JSON_MAPS_QUICK = [
+    ('map: three optional fields symbolic, mixed contents', {'mappings': 'AAAA;;CAAC', 'sources': ['a.js', 'b'], 'sourcesContent': ['', 'x\n"q"'], 'names': ['n" \\', '\u2028\u2029'], 'file': _S('f.js'), 'sourceRoot': _S('r/'), 'debugId': _S('id-1')}),
+    ('map: all contents empty (member omitted)', {'mappings': '', 'sources': ['a.js', 'b'], 'sourcesContent': ['', ''], 'names': [], 'file': _S(''), 'sourceRoot': None, 'debugId': _S('')}),
+    ('map: no sources, no contents', {'mappings': 'A', 'sources': [], 'sourcesContent': [], 'names': ['\U0001F600', '\x01\x1f'], 'file': None, 'sourceRoot': _S(''), 'debugId': None}),
+    ('map: last content non-empty only', {'mappings': 'AAAA', 'sources': ['', '', 'c'], 'sourcesContent': ['', '', 'z'], 'names': [''], 'file': _S('\t'), 'sourceRoot': _S('/'), 'debugId': _S('\\')}),
+    ('map: first content non-empty only', {'mappings': 'AAAA', 'sources': ['a', 'b'], 'sourcesContent': ['z', ''], 'names': [], 'file': None, 'sourceRoot': None, 'debugId': _S('d')}),
+    ('map: more contents than sources', {'mappings': 'AAAA', 'sources': ['a'], 'sourcesContent': ['', 'surplus'], 'names': ['n'], 'file': _S('f'), 'sourceRoot': None, 'debugId': None}),
+    ('map: fewer contents than sources, all empty', {'mappings': 'AAAA', 'sources': ['a', 'b', 'c'], 'sourcesContent': [''], 'names': [], 'file': None, 'sourceRoot': _S('r'), 'debugId': _S('d')}),
+]
+JSON_MAPS_THOROUGH = [
+    ('map: empty everything', {'mappings': '', 'sources': [], 'sourcesContent': [], 'names': [], 'file': _S(''), 'sourceRoot': _S(''), 'debugId': _S('')}),
+    ('map: contents with blanks only', {'mappings': 'A', 'sources': ['a', 'b'], 'sourcesContent': [' ', ''], 'names': [], 'file': None, 'sourceRoot': None, 'debugId': None}),
+    ('map: astral and controls everywhere', {'mappings': 'AAAA', 'sources': ['\U0001F600\x7f', '\x00'], 'sourcesContent': ['\x00', '\U0001F600'], 'names': ['\ud7ff', '\ufffd'], 'file': _S('\U0001F600'), 'sourceRoot': _S('\x01'), 'debugId': _S('\u2028')}),
+]
+JSON_DOCS_QUICK = [
+    ('doc: mappings + sources with null entries + optional file + unknown member, any order', [('mappings', 'AA', True), ('sources', [_N('a'), _N('b')], '?'), ('file', _N('f'), '?'), ('extra', {'a': [1]}, '?')]),
+    ('doc: all three arrays optional / null, any order', [('mappings', '', True), ('sources', _N(['s']), '?'), ('sourcesContent', _N([_N('c')]), '?'), ('names', _N([None, 'n']), '?')]),
+    ('doc: optional strings null / absent + version member, any order', [('version', 3, '?'), ('mappings', 'A;B', True), ('sourceRoot', _N('r'), '?'), ('debugId', _N('d'), '?')]),
+    ('doc: mappings itself optional / null (must be rejected), any order', [('mappings', _N('A'), '?'), ('names', ['n'], True), ('file', 'f', '?')]),
+    ('doc: the same member twice', [('mappings', 'A', True), ('file', 'f', True), ('file', 'g', '?'), ('names', [], '?')]),
+]
+JSON_DOCS_THOROUGH = [
+    ('doc: five members, any order', [('mappings', 'A', True), ('sources', [_N('a')], '?'), ('names', _N(['n']), '?'), ('file', _N('f'), '?'), ('sourceRoot', _N('r'), '?')]),
+    ('doc: all seven members present, any order of the first five', [('mappings', 'A', True), ('sources', ['a'], True), ('sourcesContent', ['c'], True), ('names', ['n'], True), ('file', 'f', True)]),
+]
+
+
+def json_jobs(tier, seed):
+    jobs = [J('tv_json', 'jobs.jsonrt:tv_json', dict(n=60 if tier == 'quick' else 300, seed=seed), timeout=300)]
+    for flav in ('mir', 'mir_rel'):
+        for name, spec in JSON_MAPS_QUICK + (JSON_MAPS_THOROUGH if tier == 'thorough' else []):
+            jobs.append(J('json roundtrip %s [%s]' % (name, flav), 'jobs.jsonrt:roundtrip_job', dict(spec=spec, flavour=flav), timeout=300))
+    for name, mem in JSON_DOCS_QUICK:
+        jobs.append(J('json %s' % name, 'jobs.jsonrt:document_job', dict(members=mem), timeout=600))
+    if tier == 'thorough':
+        for name, mem in JSON_DOCS_THOROUGH:
+            jobs.append(J('json %s' % name, 'jobs.jsonrt:document_job', dict(members=mem), required=False, timeout=900))
+    return jobs
+
+
 PROPS = {
+    'C15': dict(jobs=[json_jobs],
+                bounds={'quick': 'the crate side of the JSON pipeline interpreted from MIR (SourceMap::to_json / to_writer / from_json / from_slice / from_reader, the derive-generated Serialize impl of SourceMap with its skip predicates and is_all_empty, the derive-generated Deserialize impl of RawSourceMap, TryFrom<RawSourceMap>); SourceMap values of the catalog JSON_MAPS_QUICK (<= 3 sources / contents / names, concrete strings with quotes, backslashes, control characters, U+2028/9, astral characters) whose three optional fields are present or absent SYMBOLICALLY (Option discriminants decided by the solver), debug and release MIR; documents of JSON_DOCS_QUICK: <= 4 members, each optional member present or absent, each nullable entry null or a string, and the ORDER of the members symbolic (every permutation), read through all three entry points',
+                        'thorough': 'as quick plus larger maps and documents of 5 members in every order'},
+                outside='the JSON TEXT layer of simd-json (escaping on output, lexing / UTF-8 validation / number parsing on input, SIMD kernels) is a CONTRACT (msx/jsonmodel.py: a faithful RFC 8259 binding of the serde data model) - validated on every run against the native crate with the real simd-json on pseudo-random values and documents (tv_json) and by native replay of every counterexample, but not decided; string contents are concrete; byte sequences that are not JSON (C17 sentence on the parsers) are not decided',
+                assumptions=['simd_json::serde::{to_string,to_writer,from_slice,from_reader} = RFC 8259 binding of the serde data model (member order = emission order; objects -> visit_map with duplicates kept, arrays -> visit_seq)', 'serde impls of Deserialize for String / Option<T> / Vec<T> / IgnoredAny and __private::de::missing_field have their documented meaning', 'the reader passed to from_reader is a byte slice']),
     'C12': dict(jobs=[codec_c12],
                 bounds={'quick': 'encode_vlq: all u32 a,b with |a-b| < 2^30; decoder vs format: skeletons of <= 3 segments, <= 3 digits per field, every digit symbolic; '
                                  'round trips: <= 2 symbolic mappings, field values < 2^5 (2 mappings: < 2^3), line gaps <= 1; lines-only encoder: <= 2 mappings',
